@@ -19,7 +19,7 @@ RULE = (
     "offset of every container), truncation/extension, removal of each non-newest chain element (base included), "
     "substitution by the same-index container of a foreign record with identical content, substitution by a fork, "
     "patch stacked on the other fork, duplicated container, extra foreign container, nulled hash of a non-newest "
-    "container, edited prev_patch/record_uuid/patch_uuid, duplicated patch_uuid, manifest removed/flipped/replaced, stub "
+    "container, edited prev_patch/record_uuid/patch_uuid, duplicated patch_uuid, manifest removed/flipped/replaced (as sidecar, and handed over via manifest_file= with the sidecar intact), stub "
     "as non-base, baseless sets opened with allow_baseless=True (flips, gap, foreign container); each opened by explicit list and by name in r (sampled: r+/a, which must also not create a file). "
     "Oracle: a faulty set must raise. Controls that must open: unmutated set, ASCII-safe change in user-block padding, "
     "removal of the newest container, fork as newest, uncommitted newest, missing sidecar of a non-newest container. "
@@ -117,10 +117,10 @@ class Rec:
         return out
 
 
-def attempt(cls, what, mode="r"):
+def attempt(cls, what, mode="r", **kw):
     """-> ('opened', info) | ('raised', reason)"""
     try:
-        r = cls(what, mode)
+        r = cls(what, mode, **kw)
     except Exception as e:
         gc.collect()
         return "raised", classify(e)
@@ -347,6 +347,32 @@ def run_record(rng, acc, d, clsname, tier, rec_seed=None):
         st = R.stage(W)
         RE.sidecar(st[-1]).write_bytes(mfb + b"\n")
         must_fail(["manifest-extended"], st, W)
+        # the manifest handed over EXPLICITLY (manifest_file=...), the canonical sidecar left intact beside the container
+        X = R.d / "explicit"
+        X.mkdir(exist_ok=True)
+        st = R.stage(W)
+        b = bytearray(mfb)
+        b[rng.randrange(len(b))] ^= 0x01
+        cands = {"flipped": bytes(b), "of-older-patch": RE.sidecar(R.files[-2]).read_bytes(),
+                 "of-other-record": RE.sidecar(R.ffiles[-1]).read_bytes(), "extended": mfb + b" ", "missing": None}
+        for kind, content in cands.items():
+            mp = X / f"{kind}.json"
+            if content is not None:
+                mp.write_bytes(content)
+            res, info = attempt(cls, list(st), "r", manifest_file=mp)
+            acc.count("faults.explicit-manifest")
+            acc.count(f"detected_by.{info}" if res == "raised" else "undetected")
+            acc.case([rid, ["explicit-manifest", kind], "list", "r"], nontrivial=True)
+            if res == "opened":
+                viol.append((["explicit-manifest", kind], f"set opened with a manifest_file that is not the one its newest container links ({kind}): {info}"))
+        mp = X / "exact copy.json"
+        mp.write_bytes(mfb)
+        res, info = attempt(cls, list(st), "r", manifest_file=mp)
+        if res == "opened":
+            acc.count("controls.explicit-manifest-exact-copy")
+        else:
+            acc.count("harness_errors")
+            acc.note(f"control explicit-manifest-exact-copy did not open: {info}")
         # a stub placed as non-base
         S = R.d / "stubdir"
         S.mkdir(exist_ok=True)
@@ -436,7 +462,7 @@ def inconclusive(cov):
     c = cov["counters"]
     r = []
     need = ["faults.flip", "faults.remove", "faults.foreign-subst", "faults.duplicate", "faults.ub-hash-nulled",
-            "faults.manifest-flip", "faults.stub-as-patch", "faults.stacked-on-other-fork", "controls.unmutated",
+            "faults.manifest-flip", "faults.explicit-manifest", "controls.explicit-manifest-exact-copy", "faults.stub-as-patch", "faults.stacked-on-other-fork", "controls.unmutated",
             "controls.padding-edit", "controls.fork-as-newest", "controls.uncommitted-newest", "controls.baseless", "faults.baseless-flip"]
     for k in need:
         if not c.get(k):
